@@ -12,8 +12,7 @@ RULE = ("strings built from valid hex strings of every boundary length with one 
         "field-name set with valid and invalid field values; non-trivial = the value reaches past the first type test "
         "(a str for string validators, a dict for entry validators); distinct by (validator, value)")
 
-THEOREMS = ["checkHexString_iff", "checkHexKey_iff", "isHexSignature_iff", "checkGpgFingerprint_iff", "checkSignature_iff",
-            "checkGpgSignature_iff", "unhex_injective", "keylist_nodup_bytes", "pred_agrees"]
+THEOREMS = ["checkHexString_iff", "checkHexKey_iff", "isHexSignature_eq", "checkGpgFingerprint_iff", "checkSignature_iff", "checkGpgSignature_iff", "distinct_keys_distinct_bytes", "keylist_nodup_bytes", "pred_agrees"]
 
 HEX = "0123456789abcdef"
 
